@@ -80,11 +80,23 @@ Pow2(n) == IF n = 0 THEN 1 ELSE 2 * Pow2(n - 1)
 
 Spent(P) == UNION {Atoms[a].ins : a \in P}
 Created(P) == UNION {Atoms[a].outs : a \in P}
+\* Two atoms may create the SAME output commitment (same value, same key). What counts for a set of transactions applied
+\* together (one aggregate / one block, i.e. after cut-through) is, per commitment, creations minus spends:
+\*   +1 a new output (must not be unspent on the chain already), -1 a spend of a chain output, 0 cut through,
+\*   anything else is a duplicate output / a double spend (transaction::cut_through refuses it)
+Net(P, c) == Cardinality({a \in P : c \in Atoms[a].outs}) - Cardinality({a \in P : c \in Atoms[a].ins})
+\* the commitments of the universe that more than one atom creates (a constant: evaluated once). Sets of atoms that do
+\* not touch them are handled with plain set algebra, which is the same thing there and much faster for TLC.
+DupCommits == {c \in UNION {Atoms[a].outs : a \in DOMAIN Atoms} : Cardinality({a \in DOMAIN Atoms : c \in Atoms[a].outs}) > 1}
+Plain(P) == (Spent(P) \cup Created(P)) \cap DupCommits = {}
 \* transaction::aggregate : cut-through of everything created and spent inside P
-TxOf(P) == [k |-> P, ins |-> Spent(P) \ Created(P), outs |-> Created(P) \ Spent(P)]
-\* no commit spent twice or created twice inside P
-Consistent(P) == \A a, b \in P : a # b => /\ Atoms[a].ins \cap Atoms[b].ins = {}
-                                          /\ Atoms[a].outs \cap Atoms[b].outs = {}
+TxOf(P) == IF Plain(P) THEN [k |-> P, ins |-> Spent(P) \ Created(P), outs |-> Created(P) \ Spent(P)]
+           ELSE LET cs == Spent(P) \cup Created(P)
+                IN [k |-> P, ins |-> {c \in cs : Net(P, c) < 0}, outs |-> {c \in cs : Net(P, c) > 0}]
+\* no commit spent twice or created twice inside P once cut-through is done
+Consistent(P) == IF Plain(P) THEN \A a, b \in P : a # b => /\ Atoms[a].ins \cap Atoms[b].ins = {}
+                                                          /\ Atoms[a].outs \cap Atoms[b].outs = {}
+                 ELSE \A c \in Spent(P) \cup Created(P) : Net(P, c) \in {-1, 0, 1}
 RECURSIVE FeeOf(_)
 FeeOf(P) == IF P = {} THEN 0 ELSE LET a == CHOOSE y \in P : TRUE IN Atoms[a].fee + FeeOf(P \ {a})
 ShiftOf(P) == MaxOf({Atoms[a].shift : a \in P})
@@ -98,7 +110,12 @@ WellFormed(e) == e.k # {} /\ Consistent(e.k) /\ e.ins = TxOf(e.k).ins /\ e.outs 
 ----------------------------------------------------------------------------
 \* abstract chain
 Confirmed(ch) == UNION {ch[i] : i \in 1..Len(ch)}
-Utxo(ch) == ((0..Trunk) \cup Created(Confirmed(ch))) \ Spent(Confirmed(ch))
+\* block by block (a commitment may be created again after it has been spent)
+RECURSIVE UtxoUpTo(_, _)
+UtxoUpTo(ch, n) == IF n = 0 THEN 0..Trunk
+                   ELSE LET t == TxOf(ch[n]) IN (UtxoUpTo(ch, n - 1) \ t.ins) \cup t.outs
+Utxo(ch) == IF Plain(Confirmed(ch)) THEN ((0..Trunk) \cup Created(Confirmed(ch))) \ Spent(Confirmed(ch))
+            ELSE UtxoUpTo(ch, Len(ch))
 HeightOf(ch) == Trunk + Len(ch)
 U == Utxo(chain)
 Height == HeightOf(chain)
@@ -200,7 +217,9 @@ Stem(t, relay) ==
                           ELSE AddFluff(t, sp1, FALSE)      \* the adapter refused the stem relay: fluff it
 
 \* entries no other txpool entry depends on
-Evictable(tp) == {x \in SeqToSet(tp) : \A y \in SeqToSet(tp) : y # x => TxOf(y).ins \cap TxOf(x).outs = {}}
+\* = taking it out leaves a jointly valid public pool: no other entry spends one of its outputs (unless another
+\* entry creates that output too), and it is not the spender that keeps two creators of the same output apart
+Evictable(tp) == {x \in SeqToSet(tp) : JointOK(AtomsIn(Remove(tp, x)), U)}
 
 Submit(t, stem, relay) ==
   LET r == IF stem THEN Stem(t, relay) ELSE Fluff(t)
